@@ -47,6 +47,11 @@ const (
 	// A symlink whose target leaves the root replaces a lower-layer entry at the same path:
 	// the link is dropped at load time and the replaced entry stays visible.
 	clsEscapeShadow = "c17.escaping_symlink_exposes_replaced_entry"
+	// Path-set requirer that lists a symlink A and a symlink B on A's chain: the pruning pass
+	// does not follow B's own chain once A's walk has marked B, so a file that B reaches within
+	// the hop budget but A does not is removed from the final view (depending on the order in
+	// which the pass meets A and B).
+	clsReqSharedChain = "c17.required_link_on_another_required_chain"
 )
 
 // c17Case identifies one evaluated (graph, depth) pair; it is self-contained for replay.
@@ -58,6 +63,16 @@ type c17Case struct {
 	// Hist: the history of the image config: 0 one entry per layer, 1 none at all, 2 fewer
 	// entries than layers (both legal; the loader then falls back to one view per layer).
 	Hist int `json:"hist,omitempty"`
+	// Pool selects the names of the entries (see c17Layout): 0 all entries in p/ and q/; 1..3
+	// some or all entries directly in the image root under names that begin with "." or "..",
+	// next to a regular file with the same name minus the leading dots (for every other entry).
+	Pool int `json:"pool,omitempty"`
+	// Req (leg "graphreq"): the image is loaded with a path-set requirer that lists every
+	// symlink of the graph (not what the links lead to); the final view is decided. Copies is
+	// the number of copies of the graph the replayed image holds (default c17ReqCopies): what
+	// the loader retains for one required symlink must not depend on the other required ones.
+	Req    bool `json:"req,omitempty"`
+	Copies int  `json:"copies,omitempty"`
 	// States is the decoded graph, for the reader (ignored on replay).
 	States []string `json:"states,omitempty"`
 	// escape leg: the symlink (path relative to the root), its link name, and what layer 0
@@ -112,28 +127,69 @@ func c17StateName(s int) string {
 	return fmt.Sprintf("abs->e%d", j)
 }
 
-// c17EntryPath places entry i of the graph named prefix: even entries in p/, odd ones in
-// q/, so that relative links cross directories. All graphs of a batch share p/ and q/ (the
-// graph name is part of the entry name), which keeps the loader's on-disk work small.
-func c17EntryPath(prefix string, i int) string {
+// c17Layout names the entries of one graph. prefix is the graph name inside its image
+// ("g12"). Pool 0 places even entries in p/ and odd ones in q/, so that relative links cross
+// directories; all graphs of a batch share p/ and q/ (the graph name is part of the entry
+// name), which keeps the loader's on-disk work small. Pools 1..3 move entries into the image
+// root under dot-prefixed names (tools create /.dockerenv, /.profile, /..data there):
+//
+//	pool 1: even entries "/.<g>_e<i>", odd entries in q/
+//	pool 2: even entries in p/, odd entries "/..<g>_e<i>"
+//	pool 3: even entries "/.<g>_e<i>", odd entries "/..<g>_e<i>"
+//
+// and, for the entries with (salt+i) even, add a regular file "/<g>_e<i>" (the same name
+// without the dots) that no link points to and no query names: an answer that describes it is
+// the wrong file.
+type c17Layout struct {
+	pool   int
+	prefix string
+	salt   int64
+}
+
+func (l c17Layout) dotted(i int) string {
+	switch {
+	case (l.pool == 1 || l.pool == 3) && i%2 == 0:
+		return "."
+	case (l.pool == 2 || l.pool == 3) && i%2 == 1:
+		return ".."
+	}
+	return ""
+}
+
+// path returns the path of entry i relative to the image root.
+func (l c17Layout) path(i int) string {
+	if dots := l.dotted(i); dots != "" {
+		return fmt.Sprintf("%s%s_e%d", dots, l.prefix, i)
+	}
 	d := "p"
 	if i%2 == 1 {
 		d = "q"
 	}
-	return fmt.Sprintf("%s/%s_e%d", d, prefix, i)
+	return fmt.Sprintf("%s/%s_e%d", d, l.prefix, i)
 }
 
-// c17GraphLayers renders one graph (named prefix, e.g. "g12") as the entries of layer 0
-// (the graph) and layer 1 (the whiteouts of its deleted entries).
-func c17GraphLayers(prefix string, states []int) (l0, l1 []tarimg.Entry) {
+// sibling returns the dot-less root-level neighbour of entry i ("" when there is none).
+func (l c17Layout) sibling(i int) string {
+	if l.dotted(i) == "" || (l.salt+int64(i))%2 != 0 {
+		return ""
+	}
+	return fmt.Sprintf("%s_e%d", l.prefix, i)
+}
+
+// c17GraphLayers renders one graph as the entries of layer 0 (the graph) and layer 1 (the
+// whiteouts of its deleted entries).
+func c17GraphLayers(lay c17Layout, states []int) (l0, l1 []tarimg.Entry) {
 	for i, s := range states {
-		p := c17EntryPath(prefix, i)
+		p := lay.path(i)
+		if sib := lay.sibling(i); sib != "" {
+			l0 = append(l0, tarimg.F(sib, "sibling:"+sib, 0o644))
+		}
 		switch {
 		case s == stFile:
 			l0 = append(l0, tarimg.F(p, "file:"+p, 0o644))
 		case s == stDir:
 			// the child (a symlink: no on-disk work) identifies the directory in listings
-			l0 = append(l0, tarimg.D(p, 0o755), tarimg.S(p+"/in_"+strings.ReplaceAll(p, "/", "_"), "/unrelated"))
+			l0 = append(l0, tarimg.D(p, 0o755), tarimg.S(c17DirChild(p), "/unrelated"))
 		case s == stMissing:
 		case s == stDeleted:
 			// a real file before it is deleted: chains through it resolve in view 0 and must
@@ -142,7 +198,7 @@ func c17GraphLayers(prefix string, states []int) (l0, l1 []tarimg.Entry) {
 			l1 = append(l1, tarimg.W(p))
 		default:
 			j := (s - stLinkBase) / 2
-			t := "/" + c17EntryPath(prefix, j)
+			t := "/" + lay.path(j)
 			if (s-stLinkBase)%2 == 0 {
 				r, err := filepath.Rel(path.Dir("/"+p), t)
 				if err != nil {
@@ -155,6 +211,9 @@ func c17GraphLayers(prefix string, states []int) (l0, l1 []tarimg.Entry) {
 	}
 	return l0, l1
 }
+
+// c17DirChild is the path of the one child of the directory entry at p.
+func c17DirChild(p string) string { return p + "/in_" + strings.ReplaceAll(p, "/", "_") }
 
 // c17Image wraps the graph entries into the 3-layer image. The keep files make sure p/ and
 // q/ exist and never become empty (a directory emptied by whiteouts vanishes from the final
@@ -193,6 +252,10 @@ type c17Tally struct {
 	boundaryDepth  int
 	deadHandles    int
 	emptyReadDir   int
+	// queried paths and hop targets that lie directly in the root under a dot-prefixed name,
+	// and those of them that have a neighbour with the same name minus the dots
+	dotNamed        int
+	dotNamedSibling int
 }
 
 // c17CheckPath compares Stat / Open / ReadDir of one path with the resolver's answer.
@@ -234,6 +297,14 @@ func c17CheckPathQueries(fsys scalibrfs.FS, v overlay.View, p string, depth int,
 	r := overlay.Resolve(v, p, depth)
 	if n, ok := v[p]; ok && n.Kind == overlay.Symlink {
 		tl.symlinkQueries++
+	}
+	for _, tp := range r.Trail {
+		if overlay.Depth(tp) == 1 && strings.HasPrefix(tp, "/.") {
+			tl.dotNamed++
+			if _, ok := v["/"+strings.TrimLeft(tp, "/.")]; ok {
+				tl.dotNamedSibling++
+			}
+		}
 	}
 	describe := func() string {
 		return fmt.Sprintf("(reference: %s after %d hop(s) via %s, budget %d)", r.Status, r.Hops, strings.Join(r.Trail, " -> "), depth)
@@ -383,15 +454,15 @@ func c17Identity(fi fs.FileInfo, n *overlay.Node) error {
 
 // c17CheckGraph checks all entries of one graph in the intermediate and the final view.
 // strict makes the known-finding classes fail as well (replays of witnesses).
-func c17CheckGraph(chains []scalibrfs.FS, prefix string, states []int, depth int, col *ev.Collector, tl *c17Tally, strict bool) error {
-	l0, l1 := c17GraphLayers(prefix, states)
+func c17CheckGraph(chains []scalibrfs.FS, lay c17Layout, states []int, depth int, col *ev.Collector, tl *c17Tally, strict bool) error {
+	l0, l1 := c17GraphLayers(lay, states)
 	views := overlay.Views(c17Image(l0, l1).Layers)
 	strictOpen, strictBoundary := strict || !col.IsKnown(clsOpenWhiteout), strict || !col.IsKnown(clsBoundary)
 	// view 0 (before the deletions) first: a resolution result must not leak from one view
 	// of an image into another view in which the target has changed.
 	for _, vi := range []int{0, 1, 2} {
 		for i := range states {
-			p := "/" + c17EntryPath(prefix, i)
+			p := "/" + lay.path(i)
 			if err := c17CheckPath(chains[vi], views[vi], p, depth, strictOpen, strictBoundary, col, tl); err != nil {
 				return fmt.Errorf("view %d (MaxSymlinkDepth %d): %w", vi, depth, err)
 			}
@@ -400,12 +471,183 @@ func c17CheckGraph(chains []scalibrfs.FS, prefix string, states []int, depth int
 	return nil
 }
 
-// c17CheckListings compares the listings of p/ and q/ (deleted entries hidden, everything
-// else shown) in the intermediate and the final view with the overlay of the whole image.
-// It returns the first entry name that differs.
-func c17CheckListings(chains []scalibrfs.FS, views []overlay.View) (string, error) {
+// ---------------------------------------------------------------------------------------
+// Images loaded with a path-set requirer that lists the symlinks, not their targets.
+// ---------------------------------------------------------------------------------------
+
+// c17ReqCopies is the number of copies of its graph that a replayed "graphreq" case holds.
+const c17ReqCopies = 12
+
+// c17Required lists what the requirer of the "graphreq" leg names for one graph: every
+// symlink entry and the link inside every directory entry (so that no directory is emptied),
+// in the absolute spelling for even entries and the relative one for odd entries. No regular
+// file of the graph is listed.
+func c17Required(lay c17Layout, states []int) []string {
+	var out []string
+	for i, s := range states {
+		p := lay.path(i)
+		switch {
+		case s == stDir:
+			p = c17DirChild(p)
+		case s >= stLinkBase:
+		default:
+			continue
+		}
+		if i%2 == 0 {
+			p = "/" + p
+		}
+		out = append(out, p)
+	}
+	return out
+}
+
+// c17RequiredShared is what the requirer lists besides the graphs' links: the files that keep
+// p/ and q/ from becoming empty.
+var c17RequiredShared = []string{"p/keep", "/q/keep"}
+
+// c17Restricted derives from the final view v of an image what the final view of the same
+// image loaded with the path set has to be: the directories, the listed entries and, as
+// removeUnnecessaryFileNodes documents ("preserving target nodes if the symlink node is
+// required ... even if there is a chain of symlinks"), everything a listed symlink reaches
+// within maxDepth hops; every other non-directory is absent (C04: "changes nothing except
+// that non-required files are absent"). may is that view.
+//
+// must differs from may only inside the class clsReqSharedChain: it keeps the targets
+// reached within maxDepth hops from the listed links that no other listed link points to.
+func c17Restricted(v overlay.View, set map[string]bool, maxDepth int) (may, must overlay.View) {
+	keepMay := retained(v, set, maxDepth)
+	// listed links that are the target of another listed link
+	pointedAt := map[string]bool{}
+	for p, n := range v {
+		if n.Kind == overlay.Symlink && requiredBy(set, p) {
+			if t, esc := overlay.LinkTarget(n.Path, n.Target); !esc {
+				pointedAt[t] = true
+			}
+		}
+	}
+	heads := map[string]bool{}
+	for p, n := range v {
+		if n.Kind != overlay.Dir && requiredBy(set, p) && !(n.Kind == overlay.Symlink && pointedAt[p]) {
+			heads[p] = true
+		}
+	}
+	keepMust := retained(v, heads, maxDepth)
+	for p, n := range v {
+		if n.Kind != overlay.Dir && requiredBy(set, p) {
+			keepMust[p] = true
+		}
+	}
+	may, must = overlay.NewView(), overlay.NewView()
+	for p, n := range v {
+		if n.Kind == overlay.Dir || keepMay[p] {
+			may[p] = n
+		}
+		if n.Kind == overlay.Dir || keepMust[p] {
+			must[p] = n
+		}
+	}
+	return may, must
+}
+
+func c17SameAnswer(a, b overlay.Result) bool {
+	if a.Status != b.Status || a.Boundary != b.Boundary || (a.Node == nil) != (b.Node == nil) {
+		return false
+	}
+	return a.Node == nil || a.Node.Path == b.Node.Path
+}
+
+// c17ReqTally counts what the requirer leg saw for one (graph, depth).
+type c17ReqTally struct {
+	c17Tally
+	linkToRetainedFile int // queries of a listed link that resolve to a file the requirer does not list
+	prunedFiles        int // files of the graph that have to be absent
+	sharedChain        int // queries inside clsReqSharedChain
+	hops               int // hops of all resolving listed links
+}
+
+// c17CheckGraphReq decides the entries of one graph in the final view of an image that was
+// loaded with the requirer of c17Required: a listed symlink whose chain has at most depth hops
+// yields the same first non-symlink target as without the requirer, every other answer is the
+// one of the unrestricted view as well, and files that are neither listed nor reached from a
+// listed link are absent.
+func c17CheckGraphReq(final scalibrfs.FS, lay c17Layout, states []int, depth int, col *ev.Collector, tl *c17ReqTally, strict bool) error {
+	l0, l1 := c17GraphLayers(lay, states)
+	full := overlay.Views(c17Image(l0, l1).Layers)[2]
+	set := map[string]bool{}
+	for _, r := range append(c17Required(lay, states), c17RequiredShared...) {
+		set[r] = true
+	}
+	may, must := c17Restricted(full, set, depth)
+	strictOpen, strictBoundary := strict || !col.IsKnown(clsOpenWhiteout), strict || !col.IsKnown(clsBoundary)
+	strictShared := strict || !col.IsKnown(clsReqSharedChain)
+	for i, s := range states {
+		p := "/" + lay.path(i)
+		rf, rm, ru := overlay.Resolve(full, p, depth), overlay.Resolve(may, p, depth), overlay.Resolve(must, p, depth)
+		if s >= stLinkBase && rf.Status == overlay.Found {
+			// the statement's first clause, on the unrestricted view: the documented retention
+			// must make the restricted model agree (a harness check)
+			if !c17SameAnswer(rf, rm) {
+				return fmt.Errorf("harness: listed link %s resolves to %s without the requirer and to %s in the model of the restricted view", p, rf.Status, rm.Status)
+			}
+			tl.hops += rf.Hops
+			if rf.Node.Kind == overlay.File {
+				tl.linkToRetainedFile++
+			}
+		}
+		if s == stFile && rm.Status == overlay.NotExist {
+			tl.prunedFiles++
+		}
+		var err error
+		if c17SameAnswer(rm, ru) {
+			err = c17CheckPath(final, may, p, depth, strictOpen, strictBoundary, col, &tl.c17Tally)
+		} else {
+			tl.sharedChain++
+			var scratch c17Tally
+			err = c17CheckPath(final, may, p, depth, strictOpen, strictBoundary, col, &tl.c17Tally)
+			if err != nil && !errors.Is(err, errC17Abandoned) && !strictShared {
+				col.Excluded(clsReqSharedChain)
+				if c17CheckPath(final, must, p, depth, strictOpen, strictBoundary, col, &scratch) == nil {
+					err = nil
+				}
+			} else if err != nil && !errors.Is(err, errC17Abandoned) {
+				err = fmt.Errorf("%w [class %s]", err, clsReqSharedChain)
+			}
+		}
+		if err != nil {
+			return fmt.Errorf("final view of the image loaded with a requirer listing %v (MaxSymlinkDepth %d): %w", sortedKeys(set), depth, err)
+		}
+	}
+	return nil
+}
+
+func c17ReqOutcome(n int, code int64, depth, pool int, tl *c17ReqTally) ev.Outcome {
+	o := ev.Outcome{NonTrivial: tl.symlinkQueries > 0, Key: fmt.Sprintf("graphreq:%d:%d:%d", n, code, depth)}
+	o.Classes = append(o.Classes, "requirer_lists_links_only", fmt.Sprintf("req:depth=%d", depth), fmt.Sprintf("req:name_pool_%d", pool))
+	if tl.linkToRetainedFile > 0 {
+		o.Classes = append(o.Classes, "req:listed_link_resolves_to_unlisted_file")
+	}
+	if tl.prunedFiles > 0 {
+		o.Classes = append(o.Classes, "req:unlisted_unreached_file_absent")
+	}
+	if tl.sharedChain > 0 {
+		o.Classes = append(o.Classes, "has:"+clsReqSharedChain)
+	}
+	if tl.depthOrCycle > 0 {
+		o.Classes = append(o.Classes, "req:some_query_exhausts_budget_or_cycles")
+	}
+	return o
+}
+
+// c17CheckListings compares the listings of p/ and q/ (and of the root when entries live
+// there), deleted entries hidden and everything else shown, in the intermediate and the final
+// view with the overlay of the whole image. It returns the first entry name that differs.
+func c17CheckListings(chains []scalibrfs.FS, views []overlay.View, pool int) (string, error) {
+	dirs := []string{"/p", "/q"}
+	if pool != 0 {
+		dirs = append(dirs, "/")
+	}
 	for _, vi := range []int{1, 2} {
-		for _, d := range []string{"/p", "/q"} {
+		for _, d := range dirs {
 			ents, err := chains[vi].ReadDir(rel(d))
 			if err != nil {
 				return "", fmt.Errorf("view %d: ReadDir(%q) fails with %q", vi, rel(d), err)
@@ -472,11 +714,15 @@ func propC17(col *ev.Collector) func(cs c17Case) (ev.Outcome, error) {
 		if cs.Leg == "escape" {
 			return propC17Escape(cs)
 		}
-		if cs.N < 1 || cs.N > 6 || cs.Code < 0 || cs.Code >= c17Count(cs.N) || cs.Depth < 0 {
+		if cs.N < 1 || cs.N > 6 || cs.Code < 0 || cs.Code >= c17Count(cs.N) || cs.Depth < 0 || cs.Pool < 0 || cs.Pool > 3 {
 			return ev.Outcome{}, fmt.Errorf("harness: malformed case %+v", cs)
 		}
 		states := c17Decode(cs.N, cs.Code)
-		l0, l1 := c17GraphLayers("g0", states)
+		if cs.Req || cs.Leg == "graphreq" {
+			return propC17Req(col, cs, states)
+		}
+		lay := c17Layout{pool: cs.Pool, prefix: "g0", salt: cs.Code}
+		l0, l1 := c17GraphLayers(lay, states)
 		ld, err := loadImage(c17WithHistory(c17Image(l0, l1), cs.Hist), &require.FileRequirerAll{}, cs.Depth)
 		defer ld.Close()
 		if err != nil {
@@ -486,15 +732,53 @@ func propC17(col *ev.Collector) func(cs c17Case) (ev.Outcome, error) {
 			return ev.Outcome{}, fmt.Errorf("expected 3 chain layers, got %d", len(ld.Chains))
 		}
 		var tl c17Tally
-		cerr := c17CheckGraph(c17Chains(ld), "g0", states, cs.Depth, col, &tl, true)
+		cerr := c17CheckGraph(c17Chains(ld), lay, states, cs.Depth, col, &tl, true)
 		if cerr == nil {
-			_, cerr = c17CheckListings(c17Chains(ld), overlay.Views(c17Image(l0, l1).Layers))
+			_, cerr = c17CheckListings(c17Chains(ld), overlay.Views(c17Image(l0, l1).Layers), cs.Pool)
 		}
 		if cerr != nil {
 			cerr = fmt.Errorf("graph %v: %w", c17StateNames(states), cerr)
 		}
 		return c17Outcome(cs.N, cs.Code, cs.Depth, states, &tl), cerr
 	}
+}
+
+// propC17Req replays one case of the requirer leg: an image that holds cs.Copies copies of the
+// graph is loaded with the requirer that lists the links of all of them.
+func propC17Req(col *ev.Collector, cs c17Case, states []int) (ev.Outcome, error) {
+	copies := cs.Copies
+	if copies <= 0 {
+		copies = c17ReqCopies
+	}
+	if copies > 64 {
+		return ev.Outcome{}, fmt.Errorf("harness: malformed case %+v", cs)
+	}
+	var l0, l1 []tarimg.Entry
+	required := append([]string{}, c17RequiredShared...)
+	lays := make([]c17Layout, copies)
+	for k := range lays {
+		lays[k] = c17Layout{pool: cs.Pool, prefix: fmt.Sprintf("g%d", k), salt: cs.Code}
+		a, b := c17GraphLayers(lays[k], states)
+		l0, l1 = append(l0, a...), append(l1, b...)
+		required = append(required, c17Required(lays[k], states)...)
+	}
+	ld, err := loadImage(c17WithHistory(c17Image(l0, l1), cs.Hist), require.NewFileRequirerPaths(required), cs.Depth)
+	defer ld.Close()
+	if err != nil {
+		return ev.Outcome{}, fmt.Errorf("FromV1Image fails: %w", err)
+	}
+	if len(ld.Chains) != 3 {
+		return ev.Outcome{}, fmt.Errorf("expected 3 chain layers, got %d", len(ld.Chains))
+	}
+	var tl c17ReqTally
+	var cerr error
+	for k := range lays {
+		if cerr = c17CheckGraphReq(ld.Chains[2].FS(), lays[k], states, cs.Depth, col, &tl, true); cerr != nil {
+			cerr = fmt.Errorf("graph %v (copy %d of %d in one image): %w", c17StateNames(states), k, copies, cerr)
+			break
+		}
+	}
+	return c17ReqOutcome(cs.N, cs.Code, cs.Depth, cs.Pool, &tl), cerr
 }
 
 // splitmix64 is the deterministic sampler of the n = 5 sample in the quick tier.
@@ -517,10 +801,14 @@ type c17Result struct {
 	err error
 }
 
-// c17Job is one batch: graphs of one size that share an image.
+// c17Job is one batch: graphs of one size that share an image, under one name pool.
 type c17Job struct {
 	n     int
 	codes []int64
+	pool  int
+	// reqDepths: the depths at which the batch is loaded a second time, with the requirer that
+	// lists the links of all its graphs.
+	reqDepths map[int]bool
 }
 
 // c17RunBatch loads one image holding the given graphs once per depth and checks them.
@@ -529,10 +817,14 @@ func c17RunBatch(col *ev.Collector, job c17Job, depths []int) []c17Result {
 	var out []c17Result
 	var l0, l1 []tarimg.Entry
 	states := make([][]int, len(codes))
+	lays := make([]c17Layout, len(codes))
+	required := append([]string{}, c17RequiredShared...)
 	for k, code := range codes {
 		states[k] = c17Decode(n, code)
-		a, b := c17GraphLayers(fmt.Sprintf("g%d", k), states[k])
+		lays[k] = c17Layout{pool: job.pool, prefix: fmt.Sprintf("g%d", k), salt: code}
+		a, b := c17GraphLayers(lays[k], states[k])
 		l0, l1 = append(l0, a...), append(l1, b...)
+		required = append(required, c17Required(lays[k], states[k])...)
 	}
 	img := c17Image(l0, l1)
 	bviews := overlay.Views(img.Layers)
@@ -548,22 +840,22 @@ func c17RunBatch(col *ev.Collector, job c17Job, depths []int) []c17Result {
 			if err == nil {
 				err = fmt.Errorf("expected 3 chain layers, got %d", len(ld.Chains))
 			}
-			out = append(out, c17Result{cs: c17Case{Leg: "graph", N: n, Code: codes[0], Depth: d, Hist: hist}, err: fmt.Errorf("FromV1Image fails on a batch of %d graphs: %w", len(codes), err)})
+			out = append(out, c17Result{cs: c17Case{Leg: "graph", N: n, Code: codes[0], Depth: d, Hist: hist, Pool: job.pool}, err: fmt.Errorf("FromV1Image fails on a batch of %d graphs: %w", len(codes), err)})
 			continue
 		}
 		chains := c17Chains(ld)
 		badGraph := -1
-		badName, lerr := c17CheckListings(chains, bviews)
+		badName, lerr := c17CheckListings(chains, bviews, job.pool)
 		if lerr != nil {
 			badGraph = 0
 			var i int
-			if _, serr := fmt.Sscanf(badName, "g%d_e%d", &badGraph, &i); serr != nil || badGraph < 0 || badGraph >= len(codes) {
+			if _, serr := fmt.Sscanf(strings.TrimLeft(badName, "."), "g%d_e%d", &badGraph, &i); serr != nil || badGraph < 0 || badGraph >= len(codes) {
 				badGraph = 0
 			}
 		}
 		for k, code := range codes {
 			var tl c17Tally
-			cerr := c17CheckGraph(chains, fmt.Sprintf("g%d", k), states[k], d, col, &tl, false)
+			cerr := c17CheckGraph(chains, lays[k], states[k], d, col, &tl, false)
 			if errors.Is(cerr, errC17Abandoned) {
 				ld.Close()
 				return out
@@ -571,14 +863,57 @@ func c17RunBatch(col *ev.Collector, job c17Job, depths []int) []c17Result {
 			if cerr == nil && k == badGraph {
 				cerr = lerr
 			}
-			cs := c17Case{Leg: "graph", N: n, Code: code, Depth: d, Hist: hist}
+			cs := c17Case{Leg: "graph", N: n, Code: code, Depth: d, Hist: hist, Pool: job.pool}
 			if cerr != nil {
 				cs.States = c17StateNames(states[k])
 				cerr = fmt.Errorf("graph %v: %w", cs.States, cerr)
 			}
 			oc := c17Outcome(n, code, d, states[k], &tl)
-			oc.Classes = append(oc.Classes, fmt.Sprintf("config_history_form_%d", hist))
+			oc.Classes = append(oc.Classes, fmt.Sprintf("config_history_form_%d", hist), fmt.Sprintf("name_pool_%d", job.pool))
+			if job.pool != 0 && tl.dotNamed > 0 {
+				oc.Classes = append(oc.Classes, "dot_prefixed_root_entry_queried_or_hop_target")
+				if tl.dotNamedSibling > 0 {
+					oc.Classes = append(oc.Classes, "dot_prefixed_root_entry_with_dotless_sibling")
+				}
+			}
 			out = append(out, c17Result{cs: cs, o: oc, err: cerr})
+		}
+		ld.Close()
+		if !job.reqDepths[d] {
+			continue
+		}
+		// ---- the same image, restricted to the links of its graphs
+		ld, err = loadImage(c17WithHistory(img, hist), require.NewFileRequirerPaths(required), d)
+		if err != nil || len(ld.Chains) != 3 {
+			ld.Close()
+			if err == nil {
+				err = fmt.Errorf("expected 3 chain layers, got %d", len(ld.Chains))
+			}
+			out = append(out, c17Result{cs: c17Case{Leg: "graphreq", Req: true, N: n, Code: codes[0], Depth: d, Hist: hist, Pool: job.pool}, err: fmt.Errorf("FromV1Image with a path-set requirer fails on a batch of %d graphs: %w", len(codes), err)})
+			continue
+		}
+		final := ld.Chains[2].FS()
+		totalHops := 0
+		first := len(out)
+		for k, code := range codes {
+			var tl c17ReqTally
+			cerr := c17CheckGraphReq(final, lays[k], states[k], d, col, &tl, false)
+			if errors.Is(cerr, errC17Abandoned) {
+				ld.Close()
+				return out
+			}
+			cs := c17Case{Leg: "graphreq", Req: true, N: n, Code: code, Depth: d, Hist: hist, Pool: job.pool}
+			if cerr != nil {
+				cs.States = c17StateNames(states[k])
+				cerr = fmt.Errorf("graph %v (one of %d graphs in the image): %w", cs.States, len(codes), cerr)
+			}
+			totalHops += tl.hops
+			out = append(out, c17Result{cs: cs, o: c17ReqOutcome(n, code, d, job.pool, &tl), err: cerr})
+		}
+		if totalHops > d {
+			for i := first; i < len(out); i++ {
+				out[i].o.Classes = append(out[i].o.Classes, "req:hops_of_all_listed_links_exceed_depth")
+			}
 		}
 		ld.Close()
 	}
@@ -639,6 +974,31 @@ report:
 	return ok
 }
 
+// c17ReqEvery: a batch is loaded with the requirer at every c17ReqEvery-th depth (which ones
+// rotates over the batches), so that every depth meets every kind of graph without doubling the
+// number of image loads.
+const c17ReqEvery = 3
+
+// c17NewJob fixes the name pool of a batch and the depths at which it is also loaded with the
+// requirer: both rotate over the batches (by a hash of the batch number and the run's seed), so
+// that the enumeration of the graphs keeps its size. Half of the batches use pool 0.
+func c17NewJob(n int, codes []int64, batchNo int) c17Job {
+	h := splitmix64(ev.Seed()*1000003 + uint64(batchNo))
+	job := c17Job{n: n, codes: codes, reqDepths: map[int]bool{}}
+	if w := h.next() % 6; w >= 3 && ev.IntEnv("VERIF_C17_POOLS", 1) != 0 {
+		job.pool = int(w) - 2
+	}
+	// (debugging knobs: VERIF_C17_POOLS=0 keeps pool 0, VERIF_C17_REQ_EVERY=0 drops the requirer leg)
+	every := ev.IntEnv("VERIF_C17_REQ_EVERY", c17ReqEvery)
+	off := h.next()
+	for d := 0; d <= 6 && every > 0; d++ {
+		if (off+uint64(d))%uint64(every) == 0 {
+			job.reqDepths[d] = true
+		}
+	}
+	return job
+}
+
 func c17Workers() int {
 	_, shards := ev.Shard()
 	w := runtime.NumCPU() / shards
@@ -691,7 +1051,7 @@ func TestC17_graphs(t *testing.T) {
 				codes = append(codes, c)
 			}
 			graphs += int64(len(codes))
-			jobs = append(jobs, c17Job{n, codes})
+			jobs = append(jobs, c17NewJob(n, codes, batchNo))
 		}
 	}
 	col.SetExtra("sizes_exhaustive", fmt.Sprintf("n=1..%d x MaxSymlinkDepth 0..6, all (4+2n)^n graphs", maxExhaustive))
@@ -717,7 +1077,7 @@ func TestC17_graphs(t *testing.T) {
 			if end > len(codes) {
 				end = len(codes)
 			}
-			jobs = append(jobs, c17Job{5, codes[start:end]})
+			jobs = append(jobs, c17NewJob(5, codes[start:end], 1000000+start))
 		}
 		col.AddExtra("graphs_sampled_n5", int64(sample))
 	}
